@@ -1011,13 +1011,13 @@ def _code_stamp():
     return h.hexdigest()[:12]
 
 
-def r10_regular_language(rep, g, a):
+def r10_regular_language(rep, g, a, only_prefix=None, rid='C01/R10'):
     import os
     import pickle
     from . import regular as rg
-    R = rep.rule('C01/R10', 'exact language agreement: the automaton of every parser function (classes, literals, bounds, sequence, choice, repetition, '
+    R = rep.rule(rid, 'exact language agreement: the automaton of every parser function (classes, literals, bounds, sequence, choice, repetition, '
                  'first-byte dispatch, one-byte lookahead, end-of-input, hand-written loops; `val` opaque) accepts exactly the words of its ABNF rule — '
-                 'all lengths, up to and including the whole `toml` document rule; a difference is reported with a shortest distinguishing text', floor=58)
+                 'all lengths, up to and including the whole `toml` document rule; a difference is reported with a shortest distinguishing text', floor=58 if only_prefix is None else 10)
     facts = g.facts
     cache = os.path.join(facts.dir, f'regular-{_code_stamp()}.pkl')
     res = None
@@ -1059,9 +1059,12 @@ def r10_regular_language(rep, g, a):
             os.rename(cache + f'.tmp{os.getpid()}', cache)
         except OSError:
             pass
-    comma_guard(rep, R, facts)
+    if only_prefix is None:
+        comma_guard(rep, R, facts)
     from .regular import show_word
     for fn, (st, ex, w1, w2, approx, n) in sorted(res.items()):
+        if only_prefix is not None and not fn.startswith(only_prefix):
+            continue
         key = f'{fn}={ex}'
         if st == 'missing':
             rep.incomplete(R, key, f'parser function `{fn}` not found (renamed or removed)')
@@ -1104,6 +1107,10 @@ def rules(rep, facts):
     r10_regular_language(rep, g, a)
     if 'toml' in facts.crates:
         r7_single_parser(rep, facts)
+    if 'toml' in facts.crates:
+        from .rules_c04 import r5_from_slice
+        r5_from_slice(rep, facts)
+        rep.relabel('C04/R5', 'C01/R7b', 'the byte entry point gives the verdict of the text entry points (invalid UTF-8 is not a TOML document): ')
     if 'toml_datetime' in facts.crates:
         # the serde front end re-parses every date-time with the standalone parser: its verdicts must be the grammar's
         from .rules_c12 import r1_fields, r2_calendar, r7_shapes
